@@ -26,6 +26,18 @@ func reflectValueSlicetoInterfaceSlice(valueSlice []reflect.Value) reflect.Value
 // convertReflectValueToType trys to covert the reflect.Value to the reflect.Type
 // if it can not, it returns the original rv and an error
 func convertReflectValueToType(rv reflect.Value, rt reflect.Type) (reflect.Value, error) {
+	return convertReflectValueToTypeContext(context.Background(), rv, rt)
+}
+
+// convertValue converts like convertReflectValueToType; script functions
+// that become Go functions on the way run under the context of this run.
+func (runInfo *runInfoStruct) convertValue(rv reflect.Value, rt reflect.Type) (reflect.Value, error) {
+	return convertReflectValueToTypeContext(runInfo.ctx, rv, rt)
+}
+
+// convertReflectValueToTypeContext is convertReflectValueToType with the
+// context that script functions converted to Go func types will run under.
+func convertReflectValueToTypeContext(ctx context.Context, rv reflect.Value, rt reflect.Type) (reflect.Value, error) {
 	if rt == interfaceType || rv.Type() == rt {
 		// if reflect.Type is interface or the types match, return the provided reflect.Value
 		return rv, nil
@@ -37,24 +49,24 @@ func convertReflectValueToType(rv reflect.Value, rt reflect.Type) (reflect.Value
 	if (rv.Kind() == reflect.Slice || rv.Kind() == reflect.Array) &&
 		(rt.Kind() == reflect.Slice || rt.Kind() == reflect.Array) {
 		// covert slice or array
-		return convertSliceOrArray(rv, rt)
+		return convertSliceOrArray(ctx, rv, rt)
 	}
 	if rv.Kind() == rt.Kind() {
 		// kind matches
 		switch rv.Kind() {
 		case reflect.Map:
 			// convert map
-			return convertMap(rv, rt)
+			return convertMap(ctx, rv, rt)
 		case reflect.Func:
 			// for runVMFunction conversions, call convertVMFunctionToType
-			return convertVMFunctionToType(rv, rt)
+			return convertVMFunctionToTypeContext(ctx, rv, rt)
 		case reflect.Ptr:
 			if rv.IsNil() {
 				// a nil pointer converts to the nil pointer of the other type
 				return reflect.Zero(rt), nil
 			}
 			// both rv and rt are pointers, convert what they are pointing to
-			value, err := convertReflectValueToType(rv.Elem(), rt.Elem())
+			value, err := convertReflectValueToTypeContext(ctx, rv.Elem(), rt.Elem())
 			if err != nil {
 				return rv, err
 			}
@@ -74,7 +86,7 @@ func convertReflectValueToType(rv reflect.Value, rt reflect.Type) (reflect.Value
 			return reflect.Zero(rt), nil
 		}
 		// try to convert the element
-		return convertReflectValueToType(rv.Elem(), rt)
+		return convertReflectValueToTypeContext(ctx, rv.Elem(), rt)
 	}
 
 	if rv.Type() == stringType {
@@ -106,7 +118,7 @@ func convertReflectValueToType(rv reflect.Value, rt reflect.Type) (reflect.Value
 }
 
 // convertSliceOrArray trys to covert the reflect.Value slice or array to the slice or array reflect.Type
-func convertSliceOrArray(rv reflect.Value, rt reflect.Type) (reflect.Value, error) {
+func convertSliceOrArray(ctx context.Context, rv reflect.Value, rt reflect.Type) (reflect.Value, error) {
 	rtElemType := rt.Elem()
 
 	// try to covert elements to new slice/array
@@ -122,7 +134,7 @@ func convertSliceOrArray(rv reflect.Value, rt reflect.Type) (reflect.Value, erro
 	var err error
 	var v reflect.Value
 	for i := 0; i < rv.Len(); i++ {
-		v, err = convertReflectValueToType(rv.Index(i), rtElemType)
+		v, err = convertReflectValueToTypeContext(ctx, rv.Index(i), rtElemType)
 		if err != nil {
 			return rv, err
 		}
@@ -185,7 +197,7 @@ func convertVMFunctionToTypeContext(ctx context.Context, rv reflect.Value, rt re
 		if rt.NumOut() < 2 {
 			// Go function wants one return value
 			// will try to covert to reflect.Value correct type and return
-			rv, err = convertReflectValueToType(rv, rt.Out(0))
+			rv, err = convertReflectValueToTypeContext(ctx, rv, rt.Out(0))
 			if err != nil {
 				panic("function wants return type " + rt.Out(0).String() + " but received type " + rv.Type().String())
 			}
@@ -205,7 +217,7 @@ func convertVMFunctionToTypeContext(ctx context.Context, rv reflect.Value, rt re
 		// try to covert each value in slice to wanted type and put into a reflect.Value slice
 		rvs = make([]reflect.Value, rt.NumOut())
 		for i := 0; i < rv.Len(); i++ {
-			rvs[i], err = convertReflectValueToType(rv.Index(i), rt.Out(i))
+			rvs[i], err = convertReflectValueToTypeContext(ctx, rv.Index(i), rt.Out(i))
 			if err != nil {
 				panic("function wants return type " + rt.Out(i).String() + " but received type " + rvs[i].Type().String())
 			}
